@@ -187,7 +187,8 @@ inductive Err where
   | other (code : Nat)
   deriving Repr, DecidableEq
 
-/-- classification of a continuation for the diagnostics (not used by the theorems) -/
+/-- classification of a continuation for the diagnostics (not used by the theorems): the first item
+    that may fail -/
 def patCode : Pat → Nat
   | .empty => 1
   | .nothing => 2
@@ -195,7 +196,7 @@ def patCode : Pat → Nat
   | .anchor .nonboundary => 17
   | .anchor .boundary => 16
   | .anchor _ => 4
-  | .seq a _ => patCode a
+  | .seq a b => if totalS a then patCode b else patCode a
   | .alt _ _ => 6
   | .quant _ _ _ _ => 7
   | .cap _ b => patCode b
